@@ -1566,7 +1566,8 @@ class Parameter(_ParameterBase):
         name = self.name
         if obj is not None and self.allow_refs and obj._param__private.initialized:
             syncing = name in obj._param__private.syncing
-            ref, deps, val, is_async = obj.param._resolve_ref(self, val)
+            ref, deps, val, is_async = obj.param._resolve_ref(self, val, defer=True)
+            awaitable = val
             refs = obj._param__private.refs
             resolved = not (is_async or val is Undefined)
             relinks = ref is not None or (name in refs and not syncing)
@@ -1580,6 +1581,10 @@ class Parameter(_ParameterBase):
                 self.owner.param._update_ref(name, ref)
             elif name in refs and not syncing:
                 self.owner.param._update_ref(name)
+            if is_async:
+                # Scheduled once the reference is in place: without a
+                # running event loop the executor runs the task right away
+                async_executor(partial(obj.param._async_ref, name, awaitable, ref))
             if not resolved:
                 return
 
@@ -2236,7 +2241,13 @@ class Parameters:
             with _syncing(self_.self, updates):
                 self_.update(updates)
 
-    def _resolve_ref(self_, pobj, value):
+    def _resolve_ref(self_, pobj, value, defer=False):
+        """
+        Resolve value to (reference, dependencies, current value, is_async).
+        The evaluation of an asynchronous reference is scheduled here
+        unless defer is set; the caller then schedules the awaitable
+        returned as current value itself.
+        """
         is_gen = inspect.isgeneratorfunction(value)
         is_async = iscoroutinefunction(value) or is_gen
         deps = resolve_ref(value, recursive=pobj.nested_refs)
@@ -2247,7 +2258,7 @@ class Parameters:
             value = resolve_value(value, recursive=pobj.nested_refs)
         except Skip:
             value = Undefined
-        if is_async:
+        if is_async and not defer:
             async_executor(partial(self_._async_ref, pobj.name, value, ref))
             value = None
         return ref, deps, value, is_async
